@@ -85,6 +85,25 @@ func glyfMain(args []string) error {
 					gids = append(gids, rng.Intn(numGlyphs))
 				}
 			}
+			// always include some glyphs with a one-point contour (anchors): a rare, case-rich shape
+			extra := 0
+			for g := 0; g < numGlyphs && extra < 10; g++ {
+				s0, e0 := off(g), off(g+1)
+				if s0 < 0 || e0-s0 < 12 || e0 > len(glyf) {
+					continue
+				}
+				nc := int(int16(binary.BigEndian.Uint16(glyf[s0:])))
+				prev := -1
+				for c := 0; c < nc && s0+10+2*c+2 <= e0; c++ {
+					end := int(binary.BigEndian.Uint16(glyf[s0+10+2*c:]))
+					if end == prev+1 {
+						gids = append(gids, g)
+						extra++
+						break
+					}
+					prev = end
+				}
+			}
 			for _, g := range gids {
 				s, e := off(g), off(g+1)
 				if s < 0 || e < s || e > len(glyf) || nhm == 0 || 4*nhm > len(hmtx) {
